@@ -328,6 +328,15 @@ fn dispatch(op: &str, t: &[&str]) -> String {
             Some("31") => consts::<Primes31>(false),
             _ => consts::<Primes30>(true),
         },
+        "tab" => {
+            let n: usize = num(t, "n");
+            let f = NttTable::<Primes30>::new(n);
+            let i = poulpy_cpu_ref::reference::ntt120::ntt::NttTableInv::<Primes30>::new(n);
+            let lv = |m: &Vec<poulpy_cpu_ref::reference::ntt120::ntt::NttStepMeta>| {
+                m.iter().map(|x| format!("{}:{}:{}:{}:{}", x.bs, x.half_bs, x.mask, x.reduce as u8, join(&x.q2bs))).collect::<Vec<_>>().join("|")
+            };
+            format!("fwd={}/{} {} inv={}/{} {}", f.input_bit_size, f.output_bit_size, lv(&f.level_metadata), i.input_bit_size, i.output_bit_size, lv(&i.level_metadata))
+        }
         "spm" => split_precompmul(num(t, "inp"), num(t, "po"), num(t, "h"), num(t, "mask")).to_string(),
         "red" => modq_red(num(t, "x"), num(t, "h"), num(t, "mask"), num(t, "cst")).to_string(),
         "pow" => modq_pow(num(t, "x"), num(t, "n"), num(t, "q")).to_string(),
